@@ -43,15 +43,17 @@ def stage_bvref(chk, n):
 
 def stage_gen_bv(chk, bins, types, n_bits, family, variants=("dbg-native",)):
     path, res = vlib.generate_cases(chk.work, "GenBV_bits", "GenBV",
-                                    cfg_consts({"N": n_bits, "Mode": '"bits"', "FamilyLens": "{}", "RLClasses": "{}", "RLMaxRuns": 0, "RLTails": "{}"}) + GEN_TAIL)
+                                    cfg_consts({"N": n_bits, "Mode": '"bits"', "FamilyLens": "{}", "RLClasses": "{}", "RLMaxRuns": 0, "RLTails": "{}", "SpreadPos": "{}", "SpreadK": 0}) + GEN_TAIL)
     chk.add_tlc(res, "GenBV bits<=%d" % n_bits, {"behaviours": len(res.replay_lines)})
     path2, res2 = vlib.generate_cases(chk.work, "GenBV_family", "GenBV",
-                                      cfg_consts({"N": 0, "Mode": '"family"', "FamilyLens": family, "RLClasses": "{}", "RLMaxRuns": 0, "RLTails": "{}"}) + GEN_TAIL)
+                                      cfg_consts({"N": 0, "Mode": '"family"', "FamilyLens": family, "RLClasses": "{}", "RLMaxRuns": 0, "RLTails": "{}", "SpreadPos": "{}", "SpreadK": 0}) + GEN_TAIL)
     chk.add_tlc(res2, "GenBV family", {"behaviours": len(res2.replay_lines)})
     for v in variants:
         for p, label in ((path, "bits"), (path2, "family")):
-            out = vlib.harness(bins[v], ["replay", "--kind", "bv", "--types", ",".join(types), "--cases", p])
-            chk.add_replay(out, "replay GenBV %s on %s (%s)" % (label, v, ",".join(types)))
+            st = "replay GenBV %s on %s (%s)" % (label, v, ",".join(types))
+            out = chk.run_harness(bins[v], ["replay", "--kind", "bv", "--types", ",".join(types), "--cases", p], st)
+            if out:
+                chk.add_replay(out, st)
     chk.cov["exhaustive"] = True
 
 
@@ -60,7 +62,10 @@ def stage_trace(chk, bins, scenario, trace_module, invariants=(), variant="dbg-n
     for k in range(seeds):
         seed = chk.seed + k
         tpath = os.path.join(chk.work, "%s_%d.ndjson" % (scenario, seed))
-        out = vlib.harness(bins[variant], ["record", scenario, "--seed", str(seed), "--tier", chk.tier, "--out", tpath] + list(extra_args))
+        out = chk.run_harness(bins[variant], ["record", scenario, "--seed", str(seed), "--tier", chk.tier, "--out", tpath] + list(extra_args),
+                              "record %s trace seed %d on %s" % (scenario, seed, variant))
+        if out is None:
+            continue
         ok, info, res = vlib.validate_trace(chk.work, "T_%s_%d" % (scenario.replace("-", "_"), k), trace_module, tpath, invariants=invariants)
         chk.add_tlc(res, "validate %s trace seed %d on %s" % (scenario, seed, variant), {"events": out["stats"].get("events"), "accepted": ok})
         for key, val in out["stats"].items():
@@ -130,11 +135,12 @@ def check_C02(chk):
 
 def stage_gen_rl(chk, bins, classes, maxruns, tails):
     path, res = vlib.generate_cases(chk.work, "GenBV_rl", "GenBV",
-                                    cfg_consts({"N": 0, "Mode": '"rl"', "FamilyLens": "{}", "RLClasses": classes, "RLMaxRuns": maxruns, "RLTails": tails}) + GEN_TAIL,
+                                    cfg_consts({"N": 0, "Mode": '"rl"', "FamilyLens": "{}", "RLClasses": classes, "RLMaxRuns": maxruns, "RLTails": tails, "SpreadPos": "{}", "SpreadK": 0}) + GEN_TAIL,
                                     timeout=1500)
     chk.add_tlc(res, "GenBV run-length value classes %s, <= %d runs" % (classes, maxruns), {"behaviours": len(res.replay_lines)})
-    out = vlib.harness(bins["dbg-native"], ["replay", "--kind", "bv", "--types", "rl", "--cases", path])
-    chk.add_replay(out, "replay GenBV rl classes on dbg-native")
+    out = chk.run_harness(bins["dbg-native"], ["replay", "--kind", "bv", "--types", "rl", "--cases", path], "replay GenBV rl classes on dbg-native")
+    if out:
+        chk.add_replay(out, "replay GenBV rl classes on dbg-native")
 
 
 def check_C03(chk):
@@ -159,8 +165,9 @@ def stage_gen_vec(chk, bins, kind, widths, depth, maxitems, simulate=None, label
                                     simulate=simulate, timeout=1200, seed=chk.seed)
     chk.add_tlc(res, "GenVec %s widths=%s depth=%d %s" % (kind, widths, depth, "simulate " + simulate if simulate else "exhaustive"),
                 {"behaviours": len(res.replay_lines)})
-    out = vlib.harness(bins["dbg-native"], ["replay", "--kind", "vec", "--cases", path])
-    chk.add_replay(out, "replay %s on dbg-native" % name)
+    out = chk.run_harness(bins["dbg-native"], ["replay", "--kind", "vec", "--cases", path], "replay %s on dbg-native" % name)
+    if out:
+        chk.add_replay(out, "replay %s on dbg-native" % name)
 
 
 def check_C05(chk):
@@ -186,8 +193,9 @@ def stage_gen_wm(chk, bins, alpha, maxlen, extra="{}", label=""):
     name = "GenWM_" + label
     path, res = vlib.generate_cases(chk.work, name, "GenWM", cfg_consts({"Alpha": alpha, "MaxLen": maxlen, "ExtraVals": extra}) + GEN_TAIL, timeout=1500)
     chk.add_tlc(res, "GenWM alphabet %s length <= %d" % (alpha, maxlen), {"behaviours": len(res.replay_lines)})
-    out = vlib.harness(bins["dbg-native"], ["replay", "--kind", "wm", "--cases", path])
-    chk.add_replay(out, "replay %s on dbg-native (5 item types)" % name)
+    out = chk.run_harness(bins["dbg-native"], ["replay", "--kind", "wm", "--cases", path], "replay %s on dbg-native (5 item types)" % name)
+    if out:
+        chk.add_replay(out, "replay %s on dbg-native (5 item types)" % name)
 
 
 def check_C04(chk):
@@ -212,3 +220,118 @@ def check_C04(chk):
     return chk.finish(rule="cases = (vector, query, index/rank argument, value argument) on WaveletMatrix and WMCore built from each of the five "
                            "item types; TLC-generated for all vectors over small and sparse alphabets; recorded for skewed/uniform vectors of "
                            "width 1..16; distinct = distinct (vector, query, argument, value)")
+
+
+ITER_TAIL = "INIT Init\nNEXT Next\nVIEW View\nINVARIANT Partition\nCHECK_DEADLOCK FALSE\n"
+
+
+def gen_iter_histories(chk, maxn, ks="{0, 1, 2}"):
+    path, res = vlib.generate_cases(chk.work, "GenIter_cover", "GenIter", cfg_consts({"MaxN": maxn, "Ks": ks}) + ITER_TAIL, timeout=900)
+    chk.add_tlc(res, "GenIter transition cover of the window machine, item counts 0..%d (Partition invariant checked)" % maxn,
+                {"behaviours": len(res.replay_lines)})
+    return path
+
+
+def check_C10(chk):
+    bins = vlib.build_harness(["dbg-native"])
+    nbits = 10 if chk.thorough else 9
+    hist = gen_iter_histories(chk, nbits + 1)
+    contents, res = vlib.generate_cases(chk.work, "GenBV_iter", "GenBV",
+                                        cfg_consts({"N": nbits, "Mode": '"bits"', "FamilyLens": "{}", "RLClasses": "{}", "RLMaxRuns": 0, "RLTails": "{}", "SpreadPos": "{}", "SpreadK": 0}) + GEN_TAIL)
+    chk.add_tlc(res, "GenBV reference sequences for all contents <= %d bits" % nbits, {"behaviours": len(res.replay_lines)})
+    wmc, res2 = vlib.generate_cases(chk.work, "GenWM_iter", "GenWM", cfg_consts({"Alpha": "{0, 1, 2}", "MaxLen": 5 if chk.thorough else 4, "ExtraVals": "{}"}) + GEN_TAIL)
+    chk.add_tlc(res2, "GenWM reference sequences for vectors over {0,1,2}", {"behaviours": len(res2.replay_lines)})
+    st = "replay iterator transition cover on all iterator types x all contents x all start points (dbg-native)"
+    out = chk.run_harness(bins["dbg-native"], ["replay", "--kind", "iter", "--cases", hist, "--contents", contents, "--wmcontents", wmc], st)
+    if out:
+        chk.add_replay(out, st, behaviours=out.get("evaluations", 0))
+    spread, res3 = vlib.generate_cases(chk.work, "GenBV_spread", "GenBV",
+                                       cfg_consts({"N": 0, "Mode": '"spread"', "FamilyLens": "{130, 192}" if chk.thorough else "{130}", "RLClasses": "{}", "RLMaxRuns": 0,
+                                                   "RLTails": "{}", "SpreadPos": "{0, 1, 63, 64, 65, 127, 128, 129}", "SpreadK": 4 if chk.thorough else 3}) + GEN_TAIL)
+    chk.add_tlc(res3, "GenBV contents with few ones / few zeros spread over three words", {"behaviours": len(res3.replay_lines)})
+    st = "replay iterator transition cover on multi-word contents (word-crossing scans)"
+    out = chk.run_harness(bins["dbg-native"], ["replay", "--kind", "iter", "--cases", hist, "--contents", spread], st)
+    if out:
+        chk.add_replay(out, st, behaviours=out.get("evaluations", 0))
+    chk.cov["exhaustive"] = True
+    stage_trace(chk, bins, "iter", "TraceIter", invariants=("Window",), seeds=2 if chk.thorough else 1)
+    return chk.finish(rule="cases = (structure content, iterator kind, start point, call history); histories are the transition cover of the "
+                           "Layer A window machine (every call from every reachable window, reached by a shortest history, then drained); "
+                           "distinct = distinct (content, iterator, start, history) with a non-empty reference sequence")
+
+
+
+def replay_stage(chk, bins, variant, args, stage, hooks=False, oob_only=False, behaviours=None):
+    """Runs a harness replay; a death by signal is a violation (memory unsafety), with hooks the bounds summary is kept."""
+    a = list(args)
+    if hooks:
+        a += ["--hooks", "1"]
+    out = chk.run_harness(bins[variant], a, stage)
+    if out is None:
+        return None
+    if oob_only:
+        # C08 decides bounds only: wrong values or ordinary panics belong to other properties.
+        h = out.get("hooks", {})
+        chk.cov["evaluations"] += out.get("evaluations", 0)
+        chk.cov["distinct_nontrivial"] += out.get("distinct_nontrivial", 0)
+        chk.cov.setdefault("bounds_events", 0)
+        chk.cov["bounds_events"] += h.get("accesses", 0) + h.get("carves", 0)
+        chk.cov["stages"].append({"stage": stage, "comparisons": out.get("evaluations", 0), "bounds_events": h.get("accesses", 0) + h.get("carves", 0),
+                                   "worst_margin_event": h.get("worst"), "oob": h.get("oob_count", 0)})
+        if h.get("oob_count", 0) == 0:
+            chk.cov["traces_validated_against_impl"] += behaviours if behaviours is not None else out.get("cases", 0)
+        for o in h.get("oob", []):
+            chk.violation(stage, {"kind": "oob", "variant": variant, "site": o[0], "index_or_end": o[1], "len": o[2]})
+        oobm = [m for m in out.get("mismatches", []) if "VERIF-OOB" in json.dumps(m)]
+        for m in oobm[:3]:
+            chk.violation(stage, m)
+        for smp in out.get("samples", [])[:1]:
+            if len(chk.cov["samples"]) < 8:
+                chk.cov["samples"].append({"stage": stage, "case": smp})
+    else:
+        chk.add_replay(out, stage, behaviours=behaviours)
+    return out
+
+
+def gen_bv_sets(chk, nbits, family):
+    p1, r1 = vlib.generate_cases(chk.work, "GenBV_bits", "GenBV",
+                                 cfg_consts({"N": nbits, "Mode": '"bits"', "FamilyLens": "{}", "RLClasses": "{}", "RLMaxRuns": 0, "RLTails": "{}", "SpreadPos": "{}", "SpreadK": 0}) + GEN_TAIL)
+    chk.add_tlc(r1, "GenBV bits<=%d" % nbits, {"behaviours": len(r1.replay_lines)})
+    p2, r2 = vlib.generate_cases(chk.work, "GenBV_family", "GenBV",
+                                 cfg_consts({"N": 0, "Mode": '"family"', "FamilyLens": family, "RLClasses": "{}", "RLMaxRuns": 0, "RLTails": "{}", "SpreadPos": "{}", "SpreadK": 0}) + GEN_TAIL)
+    chk.add_tlc(r2, "GenBV family %s" % family, {"behaviours": len(r2.replay_lines)})
+    p3, r3 = vlib.generate_cases(chk.work, "GenBV_spread", "GenBV",
+                                 cfg_consts({"N": 0, "Mode": '"spread"', "FamilyLens": "{130}", "RLClasses": "{}", "RLMaxRuns": 0, "RLTails": "{}",
+                                             "SpreadPos": "{0, 1, 63, 64, 65, 127, 128, 129}", "SpreadK": 3}) + GEN_TAIL)
+    chk.add_tlc(r3, "GenBV spread", {"behaviours": len(r3.replay_lines)})
+    return p1, p2, p3
+
+
+def check_C09(chk):
+    bins = vlib.build_harness(["dbg-native", "rel-native"])
+    nbits = 8 if chk.thorough else 6
+    p1, p2, p3 = gen_bv_sets(chk, nbits, FAMILY_QUICK)
+    hist = gen_iter_histories(chk, nbits + 1)
+    wmc, rw = vlib.generate_cases(chk.work, "GenWM_total", "GenWM", cfg_consts({"Alpha": "{0, 1, 2, 3}", "MaxLen": 4 if chk.thorough else 3}) + " ExtraVals <- ExtraDef\n" + GEN_TAIL,
+                                  defs="ExtraDef == {-1, 100}")
+    chk.add_tlc(rw, "GenWM with values up to u64::MAX", {"behaviours": len(rw.replay_lines)})
+    ctor, rc = vlib.generate_cases(chk.work, "GenCtor_run", "GenCtor", cfg_consts({"Smalls": "{0, 1, 2, 5}"}) + GEN_TAIL)
+    chk.add_tlc(rc, "GenCtor: defined success / refusal of constructors for extreme arguments", {"behaviours": len(rc.replay_lines)})
+    for v in ("dbg-native", "rel-native"):
+        for p, label in ((p1, "bits"), (p2, "family"), (p3, "spread")):
+            replay_stage(chk, bins, v, ["replay", "--kind", "bv", "--types", "plain,sparse,rl", "--cases", p], "total: all queries x extreme arguments, GenBV %s, three bitvector types, %s" % (label, v))
+        out = replay_stage(chk, bins, v, ["replay", "--kind", "iter", "--cases", hist, "--contents", p1, "--wmcontents", wmc],
+                           "total: nth/nth_back beyond the remainder on every iterator type, %s" % v)
+        if out:
+            chk.cov["traces_validated_against_impl"] += 0
+        replay_stage(chk, bins, v, ["replay", "--kind", "iter", "--cases", hist, "--contents", p3], "total: iterator cover on multi-word contents, %s" % v)
+        replay_stage(chk, bins, v, ["replay", "--kind", "wm", "--cases", wmc], "total: wavelet matrix and core mappings for any index, rank, value, %s" % v)
+        replay_stage(chk, bins, v, ["replay", "--kind", "ctor", "--cases", ctor], "total: constructors, %s" % v)
+    # recorded direction on the optimized build: the extreme-argument tokens are part of every query batch
+    for scen, mod in (("plain", "TraceBV"), ("sparse", "TraceBV"), ("rl", "TraceBV"), ("wm", "TraceWM")):
+        if chk.thorough or scen in ("plain", "wm"):
+            stage_trace(chk, bins, scen, mod, variant="rel-native")
+    chk.cov["exhaustive"] = True
+    return chk.finish(rule="cases = (structure, call, argument) with arguments from {0,1,len-1,len,len+1,2len+7,2^32,2^62+12345,2^63,2^63+1,MAX-1,MAX}; "
+                           "each replayed on a debug build (overflow checks on) and an optimized build (checks off); both must return the "
+                           "value Layer A defines; a panic is a disagreement; distinct = distinct (content, call, argument)")
